@@ -168,12 +168,21 @@ pub fn raw_packet(r: &Raw, pkid_for_sub: u16) -> Packet {
     }
 }
 
-pub fn disconnect_packet() -> Packet {
+pub fn disconnect_packet(with_props: bool) -> Packet {
     Packet::Disconnect(
         Disconnect {
             reason_code: DisconnectReasonCode::NormalDisconnection,
         },
-        None,
+        if with_props {
+            Some(rumqttd::protocol::DisconnectProperties {
+                session_expiry_interval: None,
+                reason_string: Some("bye".into()),
+                user_properties: vec![("k".into(), "v".into())],
+                server_reference: None,
+            })
+        } else {
+            None
+        },
     )
 }
 
